@@ -3,6 +3,7 @@
    no-collision hypothesis explicit (see Codec/RegionsSpec.v).  Proofs by `exact`. *)
 From Coq Require Import List NArith Arith Bool.
 From SKV Require Import Params Base.Crc32 Codec.Wal Codec.WalSpec Codec.Regions Codec.RegionsSpec Codec.Regions_proofs Codec.RegionsInst Codec.WalInst.
+From SKV Require Codec.VlogParams Codec.VlogPtr Lsm.Vlog Lsm.VlogSpec Lsm.Vlog_proofs.
 Import ListNotations.
 
 (* the generated format constants (src/sstable/table.rs, src/vlog.rs, src/wal/mod.rs) satisfy the side
@@ -58,6 +59,21 @@ End WithChecksums.
 Theorem C16_footer_fixed_fields_detected : footer_fixed_fields_detected_stmt.
 Proof. exact footer_fixed_fields_detected. Qed.
 
+(* value log behind the block cache, for the code as it is (generated rule VLOG_CACHE_HIT_CHECKED; repair of finding F41):
+   whatever happens to the value-log files — cut short, appended to again from the cut position, rewritten, removed; any
+   number of times, between any operations of the machine of Lsm/Vlog.v — and through whatever pointer a value is read
+   (e.g. one stored in a table written before the damage), at Full verification an answer has the pointer's value size and,
+   with some key, the pointer's checksum.  For a pointer issued for (k0, v0): the answer is v0, or an error, or names a
+   checksum collision (another value of that length with the checksum of k0 ++ v0); the block cache never serves another
+   entry's value.  Statement: Lsm/VlogSpec.v part D; no hypothesis on the parameters; any checksum function *)
+Theorem C16_vlog_damaged_reads_checked : VlogSpec.damaged_reads_checked_stmt.
+Proof. exact Vlog_proofs.damaged_reads_checked. Qed.
+
+(* regression record of F41: the cache rule before the repair (any hit on (file id, offset) is served) answers the other
+   key's value for the old pointer after the history flush, cut, reopen, flush, read — a closed witness *)
+Theorem C16_vlog_cache_unchecked_serves_other_entry : VlogSpec.cache_unchecked_serves_other_entry_stmt.
+Proof. exact Vlog_proofs.cache_unchecked_serves_other_entry. Qed.
+
 (* ---- non-vacuity: the hypotheses are satisfiable by concrete files built with the real checksum ---- *)
 Definition ex_descr : table_descr :=
   {| td_data := [104; 96; 91]; td_filter := Some 18; td_parts := [32; 32; 32]; td_top := 79; td_meta := 355 |}.
@@ -102,4 +118,16 @@ Example C16_wal_example :
   wal_descr 32 ex_wal = [WRec 1 3; WRec 1 2] /\ wal_rec_ends 0 (wal_descr 32 ex_wal) = [10; 19] /\
   map snd (fst (read_all 32 wal_crc (fun _ => None) ex_wal)) = [10; 19] /\
   class_at 14 (wal_regions 32 ex_wal) = Some RecLen.
+Proof. vm_compute. repeat split; reflexivity. Qed.
+
+(* value log behind the block cache: the generated rule is the repaired one, and the witness history of F41 (Lsm/Vlog_proofs.v
+   x_ds) on both machines — a damaged history at Full verification, pointers issued for what was written; the old pointer is
+   refused by the repaired machine and answered with the other key's value by the one before the repair *)
+Example C16_vlog_cut_example :
+  VlogParams.VLOG_CACHE_HIT_CHECKED = true /\
+  Vlog.ds_run Vlog_proofs.x_crc Vlog_proofs.x_cfg true true Vlog_proofs.x_ds Vlog.vs0 = Some Vlog_proofs.x_st_new /\
+  VlogSpec.issued_for Vlog_proofs.x_crc Vlog_proofs.x_p0 Vlog_proofs.x_k0 [7; 7; 7]%N /\
+  fst (Vlog.vs_get Vlog_proofs.x_crc Vlog_proofs.x_cfg true Vlog_proofs.x_st_new Vlog_proofs.x_p0) = None /\
+  fst (Vlog.vs_get Vlog_proofs.x_crc Vlog_proofs.x_cfg true Vlog_proofs.x_st_new Vlog_proofs.x_p2) = Some [9; 9; 9]%N /\
+  fst (Vlog.vs_get Vlog_proofs.x_crc Vlog_proofs.x_cfg false Vlog_proofs.x_st_old Vlog_proofs.x_p0) = Some [9; 9; 9]%N.
 Proof. vm_compute. repeat split; reflexivity. Qed.
